@@ -9,7 +9,7 @@ Base == [classes |-> {"A"}, methods |-> {"pt", "n"}, consts |-> {<<"int", 1, 1>>
          not |-> FALSE, boolConst |-> FALSE, ifexp |-> FALSE, aggs |-> {}, first |-> FALSE,
          index |-> FALSE, math |-> {}, colls |-> {<<"A", "bk1">>}, select |-> TRUE, where |-> TRUE,
          selectmany |-> FALSE, range |-> FALSE, rows |-> {"seq"}, topmid |-> {},
-         topwhere |-> FALSE, evwhere |-> FALSE, rootnames |-> {}, start |-> "top", boolAsNum |-> FALSE, mindone |-> 0, singles |-> {}, userfns |-> {}, enums |-> FALSE]
+         topwhere |-> FALSE, evwhere |-> FALSE, rootnames |-> {}, start |-> "top", boolAsNum |-> FALSE, mindone |-> 0, singles |-> {}, userfns |-> {}, enums |-> FALSE, letcall |-> {}, must |-> {}, mustany |-> {}, nonnull |-> FALSE]
 
 \* C01 core: the LINQ operators and their compositions
 ProfCore == [Base EXCEPT !.classes = {"A", "T"}, !.methods = {"pt", "n", "trks", "vals"},
@@ -40,6 +40,10 @@ ProfArithTable == [ProfArith EXCEPT !.unops = {}, !.not = FALSE, !.aggs = {"Coun
 ProfShadow == [Base EXCEPT !.classes = {"A", "T"}, !.methods = {"pt", "trks"}, !.aggs = {"Count"},
                  !.rows = {"seq"}, !.mindone = 14]
 
+\* C08 (simulation): the same with binary constructs, so that one lambda contains SEVERAL sibling lambdas
+\* (j.trks().Where(..).Count() > 1 and j.trks().Where(..).Count() > 0, Count() + Count())
+ProfSiblings == [ProfShadow EXCEPT !.boolops = {"And"}, !.binops = {"+"}, !.mindone = 18]
+
 \* C12: every documented math function (README.md, "Math" section; nan and remquo take a string /
 \* a pointer and cannot be called from a query: MAY), standalone, inside arithmetic and in a comparison
 MathFns1 == {"sin", "cos", "tan", "acos", "asin", "atan", "sinh", "cosh", "tanh", "asinh", "acosh", "atanh",
@@ -49,7 +53,7 @@ MathFns2 == {"atan2", "ldexp", "scalbn", "scalbln", "pow", "hypot", "fmod", "rem
              "nexttoward", "fdim", "fmax", "fmin"}
 MathFns3 == {"fma"}
 DocumentedMath == {<<f, 1>> : f \in MathFns1} \cup {<<f, 2>> : f \in MathFns2} \cup {<<f, 3>> : f \in MathFns3}
-ProfMath == [Base EXCEPT !.methods = {"pt"}, !.consts = {<<"int", 2, 1>>, <<"double", 1, 2>>},
+ProfMath == [Base EXCEPT !.methods = {"pt"}, !.consts = {<<"int", 2, 1>>, <<"int", -1, 1>>, <<"double", 1, 2>>},
                !.binops = {"+"}, !.cmpops = {">"}, !.math = DocumentedMath, !.select = FALSE, !.where = FALSE,
                !.rows = {"bool"}, !.colls = {}, !.start = "perobj"]
 
@@ -62,13 +66,20 @@ ProfCollZ == [ProfColl EXCEPT !.classes = {"A", "Z"}, !.colls = AllBanks({"Z"}) 
 
 \* C11: every supplied C++ function x actual arguments that contain the other parameters' names
 AllFnIds == {UserFns[i].id : i \in DOMAIN UserFns}
-ProfUserFn == [Base EXCEPT !.methods = {"pt", "eta", "a", "b", "n", "m"}, !.consts = {<<"int", 2, 1>>}, !.select = FALSE, !.where = FALSE,
+ProfUserFn == [Base EXCEPT !.methods = {"pt", "eta", "a", "b", "n", "m", "link"}, !.consts = {<<"int", 2, 1>>}, !.select = FALSE, !.where = FALSE,
                  !.rows = {"seq"}, !.colls = {}, !.start = "perobj", !.userfns = AllFnIds, !.cmpops = {}]
+
+\* C11, second profile: actual arguments whose translation opens a deeper scope (a First()), with the call's value
+\* used directly as a column or inside another call
+ProfUserFnF == [ProfUserFn EXCEPT !.methods = {"pt", "vals"}, !.first = TRUE, !.must = {"First", "UserFn"}]
+\* ... and at event level, where the value is one column of several (consumed at the scope the call was entered in)
+ProfUserFnE == [Base EXCEPT !.methods = {"pt"}, !.consts = {<<"int", 2, 1>>}, !.cmpops = {}, !.where = FALSE, !.first = TRUE,
+                  !.rows = {"seq", "tuple"}, !.userfns = {"vp_inc_res", "vp_incl", "vp_lin_a_b"}, !.must = {"First", "UserFn"}]
 
 \* C10: the declared-signature space: object by value / pointer / double pointer, collection pointer,
 \* smart references with 1 and 2 extra dereferences, a declared tree type, an enum (output, comparison, argument)
 ProfTypes == [Base EXCEPT !.classes = {"A", "T", "R1", "R2"},
-                !.methods = {"pt", "q", "tv", "tpp", "trks", "link", "vals", "valsp", "tref", "trefref", "code", "color"},
+                !.methods = {"pt", "q", "tv", "tpp", "trks", "link", "vals", "valsp", "tref", "trefref", "trefrefp", "trefpp", "code", "color"},
                 !.consts = {<<"int", 1, 1>>}, !.binops = {"+"}, !.aggs = {"Count", "Sum"}, !.first = TRUE, !.index = TRUE,
                 !.select = TRUE, !.where = FALSE, !.rows = {"bool"}, !.colls = {}, !.start = "perobj", !.enums = TRUE]
 
@@ -83,6 +94,26 @@ ProfTuples == [Base EXCEPT !.classes = {"A", "B"}, !.methods = {"pt"}, !.aggs = 
                  !.colls = {<<"A", "bk1">>, <<"B", "bk1">>}, !.rows = {"seq", "tuple"},
                  !.topmid = {TUP(S(O("A")), S(O("B"))), DCT(S(O("A")), S(O("B")))}]
 
+\* C01, third profile: lambdas applied on the spot, (lambda x: body)(arg), with a number, an object or a
+\* sequence as the argument, nested, and shadowing an enclosing parameter
+ProfLet == [Base EXCEPT !.classes = {"A"}, !.methods = {"pt", "n", "vals"}, !.binops = {"+"}, !.aggs = {"Count", "Sum"},
+              !.where = TRUE, !.rows = {"seq"}, !.letcall = {N, O("A"), S(O("A")), S(N)}, !.must = {"Let"}]
+
+\* C01, fourth profile (ATLAS only): the documented jet accessors getAttributeFloat / getAttributeVectorFloat,
+\* as columns, inside arithmetic, aggregated, indexed, behind First() and a link
+ProfMoments == [Base EXCEPT !.methods = {"pt", "momf", "momv", "link"}, !.binops = {"+"}, !.aggs = {"Count", "Sum"}, !.first = TRUE,
+                  !.index = TRUE, !.rows = {"seq", "tuple"}, !.mustany = {"momf", "momv"}]
+
+\* C02 / C03 / C01: rows of several columns whose values are produced in different blocks of the emitted code
+\* (a value taken from First(), a count, a sequence), over a minimal alphabet so that two such columns fit the bound
+ProfRows == [Base EXCEPT !.methods = {"pt"}, !.consts = {}, !.cmpops = {}, !.aggs = {"Count"}, !.first = TRUE, !.where = FALSE,
+               !.rows = {"seq", "tuple"}, !.must = {"Tuple"}]
+
+\* C03 / C01: rows built from the element of a stream of numbers, so that ONE value can feed several columns
+\*   ds.SelectMany(e: e.A().Select(j: j.pt())).Select(p: (p, p)),  {'c1': p, 'c2': p + 1},  [p, p]
+ProfRowsN == [Base EXCEPT !.methods = {"pt"}, !.binops = {"+"}, !.cmpops = {}, !.aggs = {}, !.where = TRUE, !.topwhere = TRUE, !.selectmany = TRUE,
+                !.rows = {"tuple", "list", "dict"}, !.topmid = {N}, !.rootnames = {2}, !.mustany = {"Tuple", "List", "Dict"}]
+
 \* C04: partial operations (First, index, link dereference) under guards
 ProfFault == [Base EXCEPT !.methods = {"pt", "vals", "link"}, !.consts = {<<"int", 0, 1>>},
                 !.iconsts = {0, 1, 2}, !.cmpops = {">"}, !.boolops = {"And", "Or"}, !.ifexp = TRUE,
@@ -94,5 +125,16 @@ ProfFault == [Base EXCEPT !.methods = {"pt", "vals", "link"}, !.consts = {<<"int
 ProfGuard == [Base EXCEPT !.methods = {"pt"}, !.consts = {<<"int", 0, 1>>}, !.cmpops = {">", "=="}, !.boolops = {"And", "Or"},
                 !.ifexp = TRUE, !.aggs = {"Count"}, !.first = TRUE, !.math = {<<"fabs", 1>>}, !.rows = {"bool"},
                 !.select = FALSE, !.where = FALSE]
+
+\* C04 / C01: conditionals with First() in the test, the taken or the untaken arm, with DISTINCT constants in the
+\* arms so that running the wrong arm shows in the value
+ProfIfFirst == [Base EXCEPT !.methods = {"pt"}, !.consts = {<<"int", 0, 1>>, <<"int", 1, 1>>}, !.cmpops = {">"}, !.ifexp = TRUE,
+                  !.aggs = {"Count"}, !.first = TRUE, !.rows = {"bool"}, !.select = FALSE, !.where = FALSE, !.must = {"If", "First"}]
+
+\* C04, third profile (CMS only): the documented guard isNonnull(ref) and ref.f(), ref.f() if isNonnull(ref) else ..
+\* over smart references that may be null
+ProfNonNull == [Base EXCEPT !.classes = {"A", "R1"}, !.methods = {"tref", "pt", "q"}, !.consts = {<<"int", 0, 1>>},
+                  !.cmpops = {">"}, !.boolops = {"And", "Or"}, !.ifexp = TRUE, !.not = TRUE, !.rows = {"bool"}, !.select = FALSE, !.where = FALSE,
+                  !.colls = {}, !.start = "perobj", !.nonnull = TRUE, !.must = {"NonNull"}]
 
 =============================================================================
